@@ -44,6 +44,13 @@ def run(rep, ctx):
         borrow(rep, c13.r1_writers, ctx, "C13.R1", "C12.R7", keep=lambda o: o.key.endswith(":new-state") or "_is_valid" in o.key or "_validity_exception" in o.key)
     except AnalysisError as e:
         rep.error("C12.R7", str(e))
+    from . import c16
+    rep.rule("C12.R8", "the default unit a category is registered with is a unit of its quantity type in its current spelling: the rewritten legacy spelling is what is stored (shared with C16.R4 / C16.R5)")
+    try:
+        borrow(rep, c16.r4_sites, ctx, "C16.R4", "C12.R8", keep=lambda o: "AddCategory" in o.key)
+        borrow(rep, c16.r5_stored, ctx, "C16.R5", "C12.R8", keep=lambda o: "AddCategory" in o.key)
+    except AnalysisError as e:
+        rep.error("C12.R8", str(e))
     rep.not_decided += [
         "acceptance 'exactly when' for arbitrary floats (operator, operand order and dataflow are decided, not arithmetic)",
         "numpy arrays with more than one dimension",
